@@ -124,6 +124,11 @@ func replayDet(line []byte, a *Acc) {
 				one("det:XmlIndent", fmt.Sprintf("XmlIndent = %q differs from the compact form beyond inter-element white space", bi))
 				return
 			}
+			// the text of an element that holds nothing but text is the same, blank for blank, in both forms
+			if st, sti := strings.Join(simpleTexts(b), "\x00"), strings.Join(simpleTexts(bi), "\x00"); st != sti {
+				one("det:XmlIndent-text", fmt.Sprintf("XmlIndent = %q: the text of a text-only element differs from the compact form %q", bi, b))
+				return
+			}
 			w.Reset()
 			err = m.XmlIndentWriter(&w, "", "  ")
 			if !check("XmlIndentWriter", w.Bytes(), err, string(bi)) {
